@@ -300,7 +300,80 @@ def api_job(job):
     return acc
 
 
+def check_queued(acc: Acc, case):
+    """Other callers are already waiting for the same protocol object when the exception frame arrives (they are not
+    answered at all): the rejection surfaces at the moment the frame is received, not after the queued requests."""
+    import asyncio
+    from vlib.vloop import ScriptedPeer, VLoop, World
+    acc.case()
+    transport, T, R, code, d, kind = case["transport"], case["T"], case["R"], case["code"], case["delay"], case["kind"]
+    acc.nontrivial("queued", transport, case["keep"], T, R, code, d, kind, tuple(case["others"]))
+    peer = ScriptedPeer(netcase.make_responder(transport), netcase.to_actions([["exc", d, code]], T), default=("drop",))
+    world = World(peer)
+    loop = VLoop(world, max_time=1e5)
+    protocol = netcase.make_protocol(transport, T, R, case["keep"])
+    out = {}
+
+    async def first():
+        try:
+            await netcase.make_command(transport, protocol, COMMANDS[kind]).execute(protocol)
+            out["first"] = ("ok", None, loop.vtime)
+        except Exception as ex:
+            out["first"] = (type(ex).__name__, getattr(ex, "message", None), loop.vtime)
+
+    async def other(i, ticks):
+        await asyncio.sleep(netcase.secs(ticks, T) + 1e-6)
+        try:
+            await netcase.make_command(transport, protocol, ("read", 36000 + i, 3)).execute(protocol)
+        except Exception:
+            pass
+
+    async def main():
+        await asyncio.gather(first(), *[other(i, t) for i, t in enumerate(case["others"])])
+
+    res = loop.run(main())
+    loop.idle()
+    loop.shutdown()
+    if res.hang or res.exc:
+        return [("C08|%s|queued|hang" % transport, "%r %r" % (res.hang, res.exc), case)]
+    k, msg, t_end = out.get("first", ("missing", None, 0))
+    want, _ = expected_reason(code)
+    at = netcase.secs(d, T)
+    if k != "RequestRejectedException":
+        return [("C08|%s|queued|not-rejected" % transport, "exception code %d with callers queued at +%s ticks: outcome %s" % (code, case["others"], k), case)]
+    fails = []
+    mine = [e for e in world.tx if netcase.same_request(transport, world.tx[0][2], e[2])]
+    if len(mine) != 1:
+        fails.append(("C08|%s|queued|retransmitted" % transport, "%d transmissions of the rejected request" % len(mine), case))
+    if transport == "tcp" and not case["keep"]:
+        # D18: with keep-alive off the request ends by closing its connection, which Modbus/TCP serialises with the queued
+        # callers (every outcome, successes too, returns after them) - not a wait for this request's own timeout
+        acc.cls("queued|tcp-no-keepalive|close-serialised-with-queue")
+    elif t_end > at + EPS:
+        fails.append(("C08|%s|queued|rejection-delayed" % transport, "exception frame received at +%r s, the rejection surfaced at +%r s "
+                      "(other callers queued at +%s ticks, none of them answered)" % (at, t_end, case["others"]), case))
+    if msg != want and (code in VERBATIM or code not in rw.MODBUS_EXCEPTION_NAMES):
+        fails.append(("C08|%s|queued|reason" % transport, "code %d: message %r, expected %r" % (code, msg, want), case))
+    return fails
+
+
+def queued_job(job):
+    transport, keep = job
+    acc = Acc()
+    for kind in COMMANDS:
+        for code in (1, 2, 3, 4, 11, 0x55):
+            for d in (1, 4, 15):
+                for others in ((0,), (d,), (0, 0), (2, 9)):
+                    for R in (0, 2):
+                        case = {"queued": True, "transport": transport, "keep": keep, "T": 1.0, "R": R, "code": code, "delay": d, "kind": kind, "others": list(others)}
+                        for key, msg, c in check_queued(acc, case):
+                            acc.fail(key, msg, c)
+    acc.sample(case)
+    return acc
+
+
 def run(ctx):
+    ctx.shard(queued_job, [(t, k) for t in ("udp", "tcp") for k in (False, True)], "exception frame arrives while other callers are queued on the same protocol object")
     ctx.shard(api_job, [(p, 16) for p in range(16)], "inverter classes: request k of a poll answered with exception code != 2 (must surface, must not disable a block)")
     table_checks(ctx.acc)
     jobs = []
@@ -319,6 +392,10 @@ def run(ctx):
 
 
 def replay(ctx, case):
+    if case.get("queued"):
+        for key, msg, c in check_queued(ctx.acc, case):
+            ctx.acc.fail(key, msg, c)
+        return
     if case.get("api_poll"):
         for key, msg, c in api_case(ctx.acc, case):
             ctx.acc.fail(key, msg, c)
